@@ -46,6 +46,10 @@ type C09Op struct {
 	Kind   string `json:"kind"`
 	Mut    string `json:"mut,omitempty"` // add | remove | set
 	States []int  `json:"states,omitempty"`
+	// race: the local mutation made while the reply of the client mutation
+	// (Mut, States) is parked after it was computed
+	Mut2    string `json:"mut2,omitempty"`
+	States2 []int  `json:"states2,omitempty"`
 }
 
 type C09Input struct {
@@ -87,6 +91,12 @@ type c09Step struct {
 	ResSrc int       `json:"res_src"`         // result the source produced
 	Timeout bool     `json:"timeout,omitempty"`
 	Ready  bool      `json:"ready"` // client Ready after the step
+	Pushes int       `json:"pushes"` // pushClient runs that reached storeLastPush during the step
+	Rehello bool     `json:"rehello,omitempty"` // drop: a new handshake completed
+	// race: source transitions / snapshot / mirror while the reply was parked
+	Trans2 []c09Snap  `json:"trans2,omitempty"`
+	Mir2   *c09Mirror `json:"mir2,omitempty"`
+	Parked bool       `json:"parked,omitempty"`
 }
 
 type c09Obs struct {
@@ -102,6 +112,7 @@ type c09Obs struct {
 	CliRetry   bool       `json:"cli_retrying"`
 	CliErr     bool       `json:"cli_exception"`
 	CliErrs    int        `json:"cli_err_count"`
+	FinalPushes int       `json:"final_pushes"`
 	Stuck      bool       `json:"stuck"` // a call through the client did not return in time
 }
 
@@ -262,6 +273,26 @@ type c09Pair struct {
 	srv   *arpc.Server
 	cli   *arpc.Client
 	proxy *c09Proxy
+
+	pushDone atomic.Int64
+	parkNext atomic.Bool   // park the next reply-computed point
+	parked   chan struct{} // signalled when a reply is parked
+	release  chan struct{}
+}
+
+func (p *c09Pair) sched(point string) {
+	switch point {
+	case "push-done":
+		p.pushDone.Add(1)
+	case "reply-computed":
+		if p.parkNext.CompareAndSwap(true, false) {
+			p.parked <- struct{}{}
+			select {
+			case <-p.release:
+			case <-time.After(5 * time.Second):
+			}
+		}
+	}
 }
 
 func c09Mutate(m am.Api, mut string, states am.S) am.Result {
@@ -322,6 +353,9 @@ func newC09Pair(in *C09Input) (*c09Pair, error) {
 		return nil, err
 	}
 	p.srv = srv
+	p.parked = make(chan struct{}, 1)
+	p.release = make(chan struct{}, 1)
+	arpc.VerifSetSched(srv, p.sched)
 	// my tracer after the server's: same TransitionEnd point
 	if _, err := p.src.BindTracer(p.tr); err != nil {
 		cancel()
@@ -375,6 +409,9 @@ func newC09Pair(in *C09Input) (*c09Pair, error) {
 }
 
 func (p *c09Pair) Close() {
+	if p.srv != nil {
+		arpc.VerifSetSched(p.srv, nil)
+	}
 	if p.proxy != nil {
 		p.proxy.Close()
 	}
@@ -460,23 +497,33 @@ func (p *c09Pair) trackedNames() am.S {
 	return am.StatesDiff(t, c09Sel(p.names, p.in.Skipped))
 }
 
-// pushWindow lets the server push the latest data and waits for the mirror
-// to settle.
+// pushWindow lets the server push the latest data ("push-done" tells that
+// a push was produced; its absence means pushClient saw no change) and waits
+// for the client to have processed it.
 func (p *c09Pair) pushWindow() {
 	if !p.in.Pushes {
 		return
 	}
+	before := p.pushDone.Load()
+	mb, _ := json.Marshal(p.mirror())
 	p.openWindow()
-	deadline := time.Now().Add(12 * c09Ticker)
-	for time.Now().Before(deadline) {
-		if p.converged() {
-			// two more ticker periods: a second push must not undo anything
-			break
-		}
-		time.Sleep(c09Ticker / 2)
+	deadline := time.Now().Add(8 * c09Ticker)
+	for time.Now().Before(deadline) && p.pushDone.Load() == before {
+		time.Sleep(c09Ticker / 4)
 	}
-	time.Sleep(3 * c09Ticker)
+	if p.pushDone.Load() != before {
+		d2 := time.Now().Add(8 * c09Ticker)
+		for time.Now().Before(d2) {
+			ma, _ := json.Marshal(p.mirror())
+			if string(ma) != string(mb) {
+				break
+			}
+			time.Sleep(c09Ticker / 4)
+		}
+		time.Sleep(c09Ticker)
+	}
 	p.closeWindow()
+	// a pushClient call that passed the gate before the window closed
 	time.Sleep(2 * c09Ticker)
 }
 
@@ -503,51 +550,78 @@ func c09Exec(in *C09Input) (obs *c09Obs) {
 	obs.HelloSrc = p.srcSnap()
 	p.tr.take()
 
+	clientCall := func(st *c09Step, mut string, states []int, onPark func()) {
+		if obs.Stuck {
+			st.Timeout = true
+			return
+		}
+		cn := p.cli.NetMach.StateNames()
+		// states by name: the client may know fewer states
+		var sel am.S
+		for _, s := range c09Sel(p.names, states) {
+			if indexOf(cn, s) >= 0 {
+				sel = append(sel, s)
+			}
+		}
+		if len(sel) == 0 {
+			st.Kind = "noop"
+			return
+		}
+		p.wrap.take()
+		done := make(chan struct{})
+		var res am.Result
+		var mir c09Mirror
+		if onPark != nil {
+			p.parkNext.Store(true)
+		}
+		go func() {
+			defer func() { recover(); close(done) }()
+			res = c09Mutate(p.cli.NetMach, mut, sel)
+			mir = p.mirror()
+		}()
+		if onPark != nil {
+			select {
+			case <-p.parked:
+				st.Parked = true
+				onPark()
+				p.release <- struct{}{}
+			case <-done:
+			case <-time.After(c09CallLimit):
+			}
+			p.parkNext.Store(false)
+		}
+		select {
+		case <-done:
+			st.ResCli = c09Res(res)
+			st.Mir = mir
+		case <-time.After(c09CallLimit):
+			st.Timeout = true
+			st.ResCli = 9
+			obs.Stuck = true
+		}
+		rs, n := p.wrap.take()
+		if n > 0 {
+			st.ResSrc = c09Res(rs)
+		}
+	}
+
 	for _, op := range in.Ops {
 		st := c09Step{Kind: op.Kind}
+		pd := p.pushDone.Load()
 		switch op.Kind {
 		case "local":
 			c09Mutate(p.src, op.Mut, c09Sel(p.names, op.States))
-			// let the tracer goroutines (pushClient, window closed) finish
 		case "client":
-			if obs.Stuck {
-				st.Timeout = true
-				break
-			}
-			cn := p.cli.NetMach.StateNames()
-			// states by name: the client may know fewer states
-			var sel am.S
-			for _, s := range c09Sel(p.names, op.States) {
-				if indexOf(cn, s) >= 0 {
-					sel = append(sel, s)
-				}
-			}
-			if len(sel) == 0 {
-				st.Kind = "noop"
-				break
-			}
-			p.wrap.take()
-			done := make(chan struct{})
-			var res am.Result
-			var mir c09Mirror
-			go func() {
-				defer func() { recover(); close(done) }()
-				res = c09Mutate(p.cli.NetMach, op.Mut, sel)
-				mir = p.mirror()
-			}()
-			select {
-			case <-done:
-				st.ResCli = c09Res(res)
-				st.Mir = mir
-			case <-time.After(c09CallLimit):
-				st.Timeout = true
-				st.ResCli = 9
-				obs.Stuck = true
-			}
-			rs, n := p.wrap.take()
-			if n > 0 {
-				st.ResSrc = c09Res(rs)
-			}
+			clientCall(&st, op.Mut, op.States, nil)
+		case "race":
+			clientCall(&st, op.Mut, op.States, func() {
+				st.Trans = p.tr.take()
+				c09Mutate(p.src, op.Mut2, c09Sel(p.names, op.States2))
+				p.pushWindow()
+				st.Trans2 = p.tr.take()
+				m2 := p.mirror()
+				st.Mir2 = &m2
+			})
 		case "push":
 			p.pushWindow()
 		case "sync":
@@ -574,33 +648,30 @@ func c09Exec(in *C09Input) (obs *c09Obs) {
 			for time.Now().Before(deadline) {
 				if p.cli.Mach.Tick(ssrpc.ClientStates.HandshakeDone) >= tick+2 && p.ready() &&
 					p.srv.Mach.Is1(ssrpc.ServerStates.Ready) {
+					st.Rehello = true
 					break
 				}
 				time.Sleep(2 * time.Millisecond)
 			}
 			time.Sleep(2 * c09Ticker)
 		}
-		st.Trans = p.tr.take()
+		if !st.Parked {
+			st.Trans = p.tr.take()
+		}
 		st.Src = p.srcSnap()
-		if op.Kind != "client" || st.Timeout || st.Kind == "noop" {
+		if (op.Kind != "client" && op.Kind != "race") || st.Timeout || st.Kind == "noop" {
 			st.Mir = p.mirror()
 		}
 		st.Ready = p.ready()
+		st.Pushes = int(p.pushDone.Load() - pd)
 		obs.Steps = append(obs.Steps, st)
 	}
 
 	// quiescence: the source stopped changing; allow pushes and a bounded
 	// settling time
-	if in.Pushes {
-		p.openWindow()
-		deadline := time.Now().Add(40 * c09Ticker)
-		for time.Now().Before(deadline) && !p.converged() {
-			time.Sleep(c09Ticker)
-		}
-		time.Sleep(3 * c09Ticker)
-		p.closeWindow()
-		time.Sleep(c09Ticker)
-	}
+	pdq := p.pushDone.Load()
+	p.pushWindow()
+	obs.FinalPushes = int(p.pushDone.Load() - pdq)
 	obs.FinalSrc = p.srcSnap()
 	obs.FinalMir = p.mirror()
 	cm := p.cli.Mach
